@@ -265,6 +265,48 @@ def impl_coverage(pid, covdir):
         return {"unavailable": "exception: %r" % (ex,)}
 
 
+
+# ----------------------------------------------------------------------------- model/source drift
+
+def _fingerprint_exe():
+    exe = os.path.join(ROOT, "build", "bin", "fingerprint")
+    src = os.path.join(ROOT, "translate", "fingerprint", "main.go")
+    if not os.path.exists(exe) or os.path.getmtime(exe) < os.path.getmtime(src):
+        os.makedirs(os.path.dirname(exe), exist_ok=True)
+        rc, o, e = sh(["go", "build", "-o", exe, "main.go"], timeout=300, cwd=os.path.dirname(src), env_extra={"GO111MODULE": "off"})
+        if rc != 0:
+            return None
+    return exe
+
+
+def fingerprints(specs):
+    """{ "file.go:Func": sha16 | "-" } of the current source of REPO (translate/fingerprint)."""
+    exe = _fingerprint_exe()
+    if exe is None:
+        return None
+    rc, o, e = sh([exe, REPO], timeout=120, stdin="\n".join(specs) + "\n")
+    if rc != 0:
+        return None
+    return dict(l.split("\t") for l in o.splitlines() if "\t" in l)
+
+
+def model_drift(pid):
+    """Modelled functions of the property (corpus/modelled_functions.json) whose Go source differs from the
+    fingerprint pinned when the model was last reviewed against it (corpus/model_fingerprints.json; comments and
+    formatting do not count).  Drift is not a verdict: the checks use it to look harder (escalated case counts,
+    fault plans and schedules directed at the changed functions) and record it in the evidence."""
+    try:
+        spec = _load_modelled().get(pid, {})
+        specs = spec.get("modelled", []) if isinstance(spec, dict) else []
+        with open(os.path.join(ROOT, "corpus", "model_fingerprints.json")) as f:
+            pinned = json.load(f)
+        now = fingerprints(specs)
+        if now is None:
+            return []
+        return sorted(k for k in specs if k in pinned and now.get(k, "-") != pinned[k])
+    except Exception:
+        return []
+
 # ----------------------------------------------------------------------------- translators
 
 TRANSLATORS = []  # (relative output path under coq/Gen, function returning content or raising)
@@ -515,6 +557,8 @@ class Check:
         self.coverage = {}
         self.assumptions = []
         self.known = known_findings(pid)
+        self.drift = model_drift(pid)          # modelled Go functions whose source changed since the pin
+        self.escalated = bool(self.drift) and tier == "quick"
         os.makedirs(REPLAYS, exist_ok=True)
         os.makedirs(EVIDENCE, exist_ok=True)
         self.workdir = os.path.join(BUILD, "work", "%s-%s-%d" % (pid, tier, os.getpid()))
@@ -625,6 +669,7 @@ class Check:
         if explanation:
             cov["explanation"] = explanation
         cov["known_findings_reconfirmed"] = sorted(self.known_hits.keys())
+        cov["model_source_drift"] = self.drift
         ev = {"property_id": self.pid, "tier": self.tier, "seed": self.seed, "level": self.level,
               "coverage": cov, "assumptions": self.assumptions, "wall_s": round(wall, 2),
               "violations": len(self.violations) + (1 if (no_input_break and not self.violations) else 0)}
